@@ -36,7 +36,7 @@ fn reassemble(p: &Parts) -> String {
 // ------------------------------------------------------------------------------------ C13
 
 /// oracle for one canonical printer-uri string derived from target `c`
-fn c13_oracle(c: &UriCase, canon: &str) -> Result<(), (String, String)> {
+pub fn c13_oracle(c: &UriCase, canon: &str) -> Result<(), (String, String)> {
     let fail = |cls: &str, why: String| Err((cls.to_string(), format!("target {} -> printer-uri {}: {}", c.text, canon, why)));
     let p = match uri::split(canon) {
         Some(p) => p,
